@@ -293,6 +293,7 @@ def builder_triples(rng, count):
 def run(ctx):
     rng = ctx.rng
     ctx.lean = common.lean_check('C16')
+    common.run_regressions(ctx, 'C16', lambda r: recheck(r))
     quick = ctx.quick()
     corpus = common.load_corpus('C16')
     N = 300 if quick else 3000
@@ -342,3 +343,6 @@ def replay(obj):
     print('implementation returned:', common.canon_json(out))
     print('oracle:', why or 'ok')
     return 1 if why else 0
+
+
+recheck = common.recheck_via_replay(replay)
